@@ -146,16 +146,10 @@ ax("sge_self", "w", Op("sge", x, x), L(1, 1))
 ax("sgt_self", "w", Op("sgt", x, x), L(1, 0))
 ax("ugt_zero_l", "w v", Op("ugt", L("w", "v"), x), L(1, 0), cond="v == 0")
 ax("ugt_ones_r", "w v", Op("ugt", x, L("w", "v")), L(1, 0), cond="v == v_ones(w)")
-ax("uge_as_not_ugt", "w", Op("uge", x, y), Op("not", Op("ugt", y, x)))
-ax("ugt_as_not_uge", "w", Op("ugt", x, y), Op("not", Op("uge", y, x)))
-ax("sge_as_not_sgt", "w", Op("sge", x, y), Op("not", Op("sgt", y, x)))
-ax("sgt_as_not_sge", "w", Op("sgt", x, y), Op("not", Op("sge", y, x)))
 ax("sub_self", "w", Op("sub", x, x), L("w", 0))
 ax("sub_zero", "w v", Op("sub", x, L("w", "v")), x, cond="v == 0")
-ax("sub_as_add_neg", "w", Op("sub", x, y), Op("add", x, Op("neg", y)))
 ax("add_neg_self", "w", Op("add", x, Op("neg", x)), L("w", 0))
 ax("neg_neg", "w", Op("neg", Op("neg", x)), x)
-ax("neg_as_not_plus_one", "w", Op("neg", x), Op("add", Op("not", x), L("w", 1)))
 ax("and_absorb", "w", Op("and", x, Op("or", x, y)), x)
 ax("or_absorb", "w", Op("or", x, Op("and", x, y)), x)
 ax("xor_cancel", "w", Op("xor", x, Op("xor", x, y)), y)
@@ -166,7 +160,6 @@ ax("zext_zext", "w by iby", Ext("zext", Ext("zext", x, "iby"), "by"), Ext("zext"
 ax("shl_of_zero", "w v", Op("shl", L("w", "v"), x), L("w", "v"), cond="v == 0")
 ax("lshr_of_zero", "w v", Op("lshr", L("w", "v"), x), L("w", "v"), cond="v == 0")
 ax("ashr_of_zero", "w v", Op("ashr", L("w", "v"), x), L("w", "v"), cond="v == 0")
-ax("add_self_as_shl", "w", Op("add", x, x), Op("shl", x, L("w", 1)), cond="w >= 2")
 
 # second batch (after benign round 2: `a == !a -> false`, `ite(c, c, b) -> c | b` failed for want of these)
 ax("eq_not_self_l", "w", Op("eq", Op("not", x), x), L(1, 0), cond="w >= 1")
@@ -183,10 +176,6 @@ ax("add_not_self", "w", Op("add", x, Op("not", x)), L("w", "v_ones(w)"))
 ax("ugt_zero_r", "w v", Op("ugt", x, L("w", "v")), Op("not", Op("eq", x, L("w", "v"))), cond="v == 0")
 ax("uge_zero_l", "w v", Op("uge", L("w", "v"), x), Op("eq", x, L("w", "v")), cond="v == 0")
 ax("ugt_ones_l", "w v", Op("ugt", L("w", "v"), x), Op("not", Op("eq", x, L("w", "v"))), cond="v == v_ones(w)")
-ax("not_uge", "w", Op("not", Op("uge", x, y)), Op("ugt", y, x))
-ax("not_ugt", "w", Op("not", Op("ugt", x, y)), Op("uge", y, x))
-ax("not_sge", "w", Op("not", Op("sge", x, y)), Op("sgt", y, x))
-ax("not_sgt", "w", Op("not", Op("sgt", x, y)), Op("sge", y, x))
 
 # ---------------------------------------------------------------------------------- literal folding (definitions of v_*)
 for op in ("and", "or", "xor", "add", "sub", "mul", "shl", "lshr", "ashr"):
